@@ -331,10 +331,11 @@ def _mathml(e, env):
     raise AnalysisError('MathML element %s not supported' % tag)
 
 
-def read_sbml(path):
+def read_sbml(path, text=None):
     """-> dict variable -> d/dt expression (amounts for species), and the
     list of species / compartments."""
-    root = ET.parse(path).getroot()
+    root = ET.fromstring(text) if text is not None \
+        else ET.parse(path).getroot()
     model = [c for c in root if _strip(c.tag) == 'model'][0]
     comps, species = {}, {}
     for lst in model:
@@ -434,17 +435,21 @@ def r09_5(ctx, repo):
     for fname in sorted(used):
         path = os.path.join(base, fname)
         rel = 'chi/library/model_library/' + fname
-        if not os.path.exists(path):
+        text = repo.overrides.get(rel)
+        if text is None and not os.path.exists(path):
             ctx.error(rule, 'library file %s missing' % rel)
             continue
-        with open(path, 'rb') as f:
-            repo.sha[rel] = hashlib.sha256(f.read()).hexdigest()
+        if text is not None:
+            repo.sha[rel] = hashlib.sha256(text.encode()).hexdigest()
+        else:
+            with open(path, 'rb') as f:
+                repo.sha[rel] = hashlib.sha256(f.read()).hexdigest()
         repo.consulted.add(rel)
         if fname not in docs:
             ctx.note(rule, '%s has no transcribed equations' % fname)
             continue
         try:
-            rates, species, comps, amount = read_sbml(path)
+            rates, species, comps, amount = read_sbml(path, text)
         except (AnalysisError, ET.ParseError, IndexError, KeyError) as e:
             ctx.error(rule, 'cannot read %s: %s' % (rel, e))
             continue
